@@ -317,6 +317,11 @@ def rand_msg(rng):
         return ("proto", pick_name(rng))
     if k < 0.68:
         return ("protos", [b"/p%d" % i for i in range(rng.choice([999, 1000, 1001]))])
+    if k < 0.74:
+        # names whose length (with and without the newline) sits on an unsigned-varint width boundary:
+        # `encoded_len` and `encode` must agree there too (seeded change C19-c2)
+        return ("protos", [b"/" + b"v" * (rng.choice([126, 127, 128, 16382, 16383, 16384]) - 1)
+                           for _ in range(rng.choice([1, 1, 2, 3]))] + name_list(rng, 0, 2))
     return ("protos", name_list(rng, 0, 5))
 
 
